@@ -676,7 +676,41 @@ class Slicer:
         for p in pl["p"]:
             if p.startswith("[_"):
                 self._local(int(p[2:-1]), atoms, seen)
+        # component-precise for tuples built locally: `_t.1` where `_t = (a, b)` (or a copy of such a tuple) is b, not a and b
+        if pl["p"] and re.fullmatch(r"\.\d+", pl["p"][0]) and self._tuple_component(pl, atoms, seen):
+            return
         self._local(pl["l"], atoms, seen)
+
+    def _tuple_component(self, pl, atoms, seen, depth=0):
+        n = int(pl["p"][0][1:])
+        ds = self.b.defs().get(pl["l"], [])
+        if not ds or depth > 6:
+            return False
+        plans = []
+        for kind, bi, si, node, projs in ds:
+            if kind != "assign" or projs:
+                return False
+            rv = node["rv"]
+            if rv["k"] == "agg" and rv.get("tuple") and n < len(rv["ops"]):
+                plans.append(("op", rv["ops"][n]))
+            elif rv["k"] == "use" and rv["op"].get("k") in ("copy", "move"):
+                plans.append(("pl", {"l": rv["op"]["pl"]["l"], "p": list(rv["op"]["pl"]["p"]) + [pl["p"][0]]}))
+            else:
+                return False
+        key = ("tc", pl["l"], n)
+        if key in seen:
+            return True
+        seen.add(key)
+        nm = self.b.vname(pl["l"])
+        if nm:
+            atoms.add("local:%s" % nm)
+            atoms.add("lid:%d" % pl["l"])
+        for kind, x in plans:
+            if kind == "op":
+                self._operand(x, atoms, seen)
+            else:
+                self._place(x, atoms, seen)
+        return True
 
     def _local(self, l, atoms, seen):
         if l in seen:
@@ -694,6 +728,8 @@ class Slicer:
             atoms.add("lid:%d" % l)
         for kind, bi, si, node, projs in b.defs().get(l, []):
             if kind == "assign":
+                if node.get("inl_callee"):
+                    atoms.add("call:" + node["inl_callee"])     # value returned by an inlined helper: keep the call's name as an origin too
                 self._rvalue(node["rv"], atoms, seen)
             else:
                 t = node
